@@ -351,10 +351,13 @@ const n0next = "H.next@0"
 func (vc *VC) assumeRefsValid(name string, comp Term, next Term, global bool) {
 	var f Term
 	switch vc.refComps[name] {
+	// Only the fields of objects that exist are constrained: the slot of a not yet allocated object holds the
+	// value the object will be given (a callee's fresh result keeps its fields there), which may well be a
+	// reference that does not exist yet.
 	case 1:
-		f = fmt.Sprintf("(forall ((r Int)) (! (< (select %s r) %s) :pattern ((select %s r))))", comp, next, comp)
+		f = fmt.Sprintf("(forall ((r Int)) (! (=> (and (< 0 (ys.root r)) (< (ys.root r) %s)) (< (select %s r) %s)) :pattern ((select %s r))))", next, comp, next, comp)
 	case 2:
-		f = fmt.Sprintf("(forall ((r Int) (k Int)) (! (< (select (select %s r) k) %s) :pattern ((select (select %s r) k))))", comp, next, comp)
+		f = fmt.Sprintf("(forall ((r Int) (k Int)) (! (=> (and (< 0 (ys.root r)) (< (ys.root r) %s)) (< (select (select %s r) k) %s)) :pattern ((select (select %s r) k))))", next, comp, next, comp)
 	default:
 		if paths := vc.refPaths[name]; len(paths) > 0 {
 			// references held in struct values stored in slices / arrays
@@ -362,7 +365,7 @@ func (vc *VC) assumeRefsValid(name string, comp Term, next Term, global bool) {
 			for _, p := range paths {
 				cs = append(cs, app("<", strings.ReplaceAll(p, "@@X@@", fmt.Sprintf("(select (select %s r) k)", comp)), next))
 			}
-			f = fmt.Sprintf("(forall ((r Int) (k Int)) (! %s :pattern ((select (select %s r) k))))", and(cs...), comp)
+			f = fmt.Sprintf("(forall ((r Int) (k Int)) (! (=> (and (< 0 (ys.root r)) (< (ys.root r) %s)) %s) :pattern ((select (select %s r) k))))", next, and(cs...), comp)
 			break
 		}
 		return
